@@ -391,17 +391,17 @@ pub fn execute(scn: &Scenario, strat: &mut Strategy, opts: &ExecOpts, out_setup:
     });
     hook::rec_set_on_write(None);
     let mut log = hook::rec_take();
+    if opts.crash && !runaway {
+        // crash "at the end"
+        hook::set_mode(hook::OFF);
+        log.push(Rec::Ev(crash_probe(&w, hook::rec_writes() + 1, 0)));
+    }
     // final quiescent observation
     hook::set_mode(hook::OFF);
     let obs = w.obs(true);
     log.push(Rec::Ev(json!({"ev":"obs","obs":obs})));
     let solo = if let Strategy::Solo(_, t) = strat {
-        // how did the solo thread's call end?  (first ret of t after the prefix point)
-        let mut res = if solo_active && !runaway { "done".to_string() } else { "done".to_string() };
-        if runaway {
-            res = "budget".into();
-        }
-        Some((solo_steps, res, *t))
+        Some((solo_steps, if runaway { "budget".to_string() } else { "done".to_string() }, *t))
     } else {
         None
     };
@@ -470,6 +470,9 @@ pub struct Explore<'a> {
     pub distinct: usize,
     pub max_steps_seen: usize,
     pub first: bool,
+    /// schedules executed so far (kept for solo runs), capped
+    pub bases: Vec<Vec<Step>>,
+    pub keep_bases: usize,
 }
 
 fn hash_events(evs: &[Value]) -> u64 {
@@ -483,7 +486,7 @@ fn hash_events(evs: &[Value]) -> u64 {
 
 impl<'a> Explore<'a> {
     pub fn new(scn: &'a Scenario, out: &'a mut Out) -> Self {
-        Explore { scn, out, seen: HashSet::new(), execs: 0, distinct: 0, max_steps_seen: 0, first: true }
+        Explore { scn, out, seen: HashSet::new(), execs: 0, distinct: 0, max_steps_seen: 0, first: true, bases: vec![], keep_bases: 0 }
     }
 
     /// run one schedule; emit its events unless an identical event sequence was emitted before
@@ -497,6 +500,9 @@ impl<'a> Explore<'a> {
         };
         self.execs += 1;
         self.max_steps_seen = self.max_steps_seen.max(r.steps.len());
+        if self.bases.len() < self.keep_bases && !r.runaway {
+            self.bases.push(r.steps.clone());
+        }
         let mut evs = annotate(&r.log);
         for e in extra {
             evs.push(e);
@@ -583,6 +589,7 @@ impl<'a> Explore<'a> {
                     // did the in-flight call panic?  look at t's first ret after the prefix
                     let evs = annotate(&r.log);
                     let mut res = res;
+                    let mut msg = String::new();
                     let mut nth = 0usize;
                     // count scheduling points of t in the prefix to locate its call
                     let calls_before = chosen[..p].iter().zip(base.iter()).filter(|(c, s)| **c == t && s.kind == hook::K_CALL).count();
@@ -591,10 +598,11 @@ impl<'a> Explore<'a> {
                             nth += 1;
                             if nth == calls_before && e["res"] == "panic" {
                                 res = "panic".into();
+                                msg = e["msg"].as_str().unwrap_or("").to_string();
                             }
                         }
                     }
-                    self.out.push(json!({"ev":"solo","t":t,"at":p,"steps":steps,"res":res,
+                    self.out.push(json!({"ev":"solo","t":t,"at":p,"steps":steps,"res":res,"msg":msg,
                         "sched": chosen[..p].to_vec()}));
                     n += 1;
                 }
@@ -602,5 +610,53 @@ impl<'a> Explore<'a> {
             p += stride.max(1);
         }
         n
+    }
+}
+
+
+/// C05: random single-thread programs (every write is a crash point)
+pub fn random_scenario(rng: &mut Rng, idx: usize) -> Scenario {
+    let fcs = [TF, TF + HF, TF + 2 * HF + 7, 2 * TF - 1, HF + 1, HF - 1, 2 * TF, TF + 1, 3 * HF + 65, 64];
+    let frames = fcs[(idx + rng.below(fcs.len())) % fcs.len()];
+    let (cls, k) = *rng.pick(&[("simple", 1usize), ("simple", 2), ("movable", 1), ("zeroed", 1)]);
+    let init = if rng.chance(70) { "free" } else { "alloc" };
+    let ncls = if cls == "simple" { 2 } else { 3 };
+    let mut prog = vec![];
+    let mut nheld = 0usize;
+    let orders = [0, 0, 0, 1, 3, 5, 6, 7, 8, HO, HO, HO + (TO > HO) as usize, TO];
+    let n = 5 + rng.below(6);
+    for _ in 0..n {
+        let class = rng.below(ncls) as u8;
+        let slot = if rng.chance(60) { Some(rng.below(k)) } else { None };
+        let r = rng.below(100);
+        if init == "alloc" && r < 35 {
+            let o = *rng.pick(&orders);
+            let f = (rng.below(frames.max(1)) >> o) << o;
+            prog.push(SymOp::PutRaw { frame: f, order: o, class, slot });
+        } else if r < 45 || nheld == 0 {
+            prog.push(SymOp::Get { order: *rng.pick(&orders), class, slot, target: None });
+            nheld += 1;
+        } else if r < 55 {
+            let o = *rng.pick(&orders);
+            let f = (rng.below(frames.max(1)) >> o) << o;
+            prog.push(SymOp::Get { order: o, class, slot, target: Some(f) });
+            nheld += 1;
+        } else if r < 80 {
+            prog.push(SymOp::Put { idx: rng.below(nheld), class, slot });
+        } else if r < 92 {
+            prog.push(SymOp::PutPart { idx: rng.below(nheld), sub: rng.below(HO), part: rng.below(1 << 12), class, slot });
+            nheld += HO; // buddies are appended (upper bound on indices)
+        } else {
+            prog.push(SymOp::Drain);
+        }
+    }
+    Scenario {
+        name: format!("crashseq:{idx}:{frames}:{init}:{cls}:{k}"),
+        frames,
+        init: init.into(),
+        cls: cls.into(),
+        k,
+        setup: vec![],
+        threads: vec![prog],
     }
 }
